@@ -329,7 +329,7 @@ impl SendRateComp {
                     // Recomputing this term on the fly allows for some adaptation as RTT fluctuates
                     let recover_rate = compute_initial_send_rate(rtt_s);
 
-                    if self.nofeedback_idle && self.send_rate < 2*recover_rate {
+                    if self.nofeedback_idle && self.send_rate < recover_rate.saturating_mul(2) {
                         // Do nothing, this is acceptable
                     } else {
                         // Halve send rate every RTO, subject to minimum
